@@ -327,7 +327,7 @@ func runFkScenario(c *lib.Ctx, sc fkScenario, only []string) (int, int) {
 	// nothing may have leaked out of the aborted transactions
 	rt = db.NewReadTran()
 	if content(scan(rt, "s")) != content(srows) || len(scan(rt, "t")) != len(trows) {
-		lib.Infra("fkscan %s: aborted transactions changed the committed state", sc.name)
+		c.Fail("", fkCase{Kind: "fkscan", Scenario: sc.name}, "foreign key scenario %s: aborted transactions changed the committed state", sc.name)
 	}
 	return evals, nontrivial
 }
@@ -335,7 +335,13 @@ func runFkScenario(c *lib.Ctx, sc fkScenario, only []string) (int, int) {
 func runFkScans(c *lib.Ctx) {
 	scs := fkScenarios()
 	c.Par(len(scs), func(i int) {
-		ev, nt := runFkScenario(c, scs[i], nil)
+		var ev, nt int
+		if e := lib.Try(func() { ev, nt = runFkScenario(c, scs[i], nil) }); e != nil {
+			// the scenario's own rows are valid (distinct tuples, references that
+			// exist): a rejected set-up or a panic while scanning is the code's
+			c.Fail("", fkCase{Kind: "fkscan", Scenario: scs[i].name}, "foreign key scenario %s: building or scanning its tables panicked: %s", scs[i].name, lib.PanicText(e))
+			return
+		}
 		c.Eval(ev)
 		c.Nontrivial(nt)
 		c.Count("fkscan_cases", ev)
